@@ -2,9 +2,13 @@
    Statements only; proofs are in Proofs/RowsProofs.v; the model is Model/Rows.v.
    [predict_rows f pol has_obs rows] is DailyModel._predict (also used by BillingModel.predict); [f] is the
    sub-model curve (any function of segment and temperature), [pol] the effect of the masking statement:
-   MaskOff = the unchanged code (chained assignment, no effect), MaskDropped = the proposed repair. *)
+   MaskOff = the unchanged code (chained assignment, no effect); MaskMissingTemp = the literal one-line repair
+   (.loc[temperature.isna()]); MaskNonFiniteTemp = the proposed repair /var/tmp/proposed-fixes/C07-1.diff
+   (.loc[~isfinite(temperature)]); MaskDropped = observed masked on every row without prediction.
+   The check (harness/c07.py) detects which of the four the implementation has, runs the model in that mode and
+   reads from C07_mode_verdict whether the statement is a theorem or refuted for it. *)
 From Coq Require Import ZArith QArith List Bool Permutation Sorted.
-From V Require Import Model.Rows Proofs.RowsProofs.
+From V Require Import Model.Rows Model.RowsRun Proofs.RowsProofs.
 Import ListNotations.
 
 (* ---- the full statement, for a given masking behaviour ---- *)
@@ -14,7 +18,39 @@ Definition C07_statement (pol : mask_policy) : Prop :=
     both_or_neither out /\
     nansum (map (@o_pred Q) out) - nansum (map (@o_obs Q) out) == nansum (map savings out).
 
-(* with the repaired masking the full statement is a theorem *)
+(* the same over the property's quantifier ("any pattern of missing/non-finite temperature and missing usage"):
+   temperature cells are arbitrary (finite, NaN, +-inf), usage cells are a number or missing, never +-inf *)
+Definition usage_missing_or_finite (rows : list (row Q)) : Prop := forall r, In r rows -> no_inf (obs r) = true.
+Definition C07_statement_q (pol : mask_policy) : Prop :=
+  forall (f : Z -> Q -> Q) (rows : list (row Q)), usage_missing_or_finite rows ->
+    let out := predict_rows f pol true rows in
+    both_or_neither out /\
+    nansum (map (@o_pred Q) out) - nansum (map (@o_obs Q) out) == nansum (map savings out).
+
+(* ---- the repaired code (proposed patch: mask observed where the temperature is not finite) ---- *)
+Theorem C07_statement_q_nonfinite_temp_repair : C07_statement_q MaskNonFiniteTemp.
+Proof.
+  intros f rows H out. split; [apply both_or_neither_nonfinite_temp; exact H | apply sums_agree_nonfinite_temp; exact H].
+Qed.
+Print Assumptions C07_statement_q_nonfinite_temp_repair.
+
+(* its guard is exact: with that repair an infinite usage value on a day with a temperature still breaks the row-wise
+   statement (finding F3, outside the property's quantifier) *)
+Theorem C07_nonfinite_temp_repair_guard_exact : forall (A : Type) (f : Z -> A -> A) rows, NoDup (map (@ts A) rows) ->
+  both_or_neither (predict_rows f MaskNonFiniteTemp true rows) ->
+  forall r, In r rows -> finite (temp r) = true -> no_inf (obs r) = true.
+Proof. exact both_or_neither_nonfinite_temp_only_if. Qed.
+Print Assumptions C07_nonfinite_temp_repair_guard_exact.
+
+Definition f3_witness : list (row Q) := [mkrow 0%Z 0%Z (V 50) PInf].
+Theorem C07_unguarded_statement_refuted_nonfinite_temp_repair : ~ C07_statement MaskNonFiniteTemp.
+Proof.
+  intros H. destruct (H (fun _ t => t) f3_witness) as [H1 _].
+  inversion H1 as [|? ? H2 _]; subst. vm_compute in H2. discriminate.
+Qed.
+Print Assumptions C07_unguarded_statement_refuted_nonfinite_temp_repair.
+
+(* with observed masked on every row without prediction the statement is a theorem without any guard *)
 Theorem C07_both_or_neither : forall (A : Type) (f : Z -> A -> A) rows,
   both_or_neither (predict_rows f MaskDropped true rows).
 Proof. exact both_or_neither_repaired. Qed.
@@ -64,6 +100,36 @@ Proof.
   exists (fun _ t => t), (mkrow 1%Z 0%Z (V 60) (V 50) :: d8_witness). vm_compute. intros H. discriminate.
 Qed.
 Print Assumptions C07_sums_biased_refuted.
+
+(* the witness lies inside the property's quantifier (its usage value is a number) *)
+Theorem C07_statement_q_refuted_as_coded : ~ C07_statement_q MaskOff.
+Proof.
+  intros H. destruct (H (fun _ t => t) d8_witness) as [H1 _].
+  - intros r [E|[]]; subst r; reflexivity.
+  - inversion H1 as [|? ? H2 _]; subst. vm_compute in H2. discriminate.
+Qed.
+Print Assumptions C07_statement_q_refuted_as_coded.
+
+(* the literal one-line repair (.loc[temperature.isna()]) is refuted inside the quantifier too: +-inf temperature *)
+Definition f2_witness : list (row Q) := [mkrow 0%Z 0%Z PInf (V (451 # 10))].
+Theorem C07_statement_q_refuted_missing_temp_repair : ~ C07_statement_q MaskMissingTemp.
+Proof.
+  intros H. destruct (H (fun _ t => t) f2_witness) as [H1 _].
+  - intros r [E|[]]; subst r; reflexivity.
+  - inversion H1 as [|? ? H2 _]; subst. vm_compute in H2. discriminate.
+Qed.
+Print Assumptions C07_statement_q_refuted_missing_temp_repair.
+
+(* ---- verdict per masking behaviour: the check evaluates [mode_satisfies_statement] on the behaviour it observed ---- *)
+Theorem C07_mode_verdict : forall pol, C07_statement_q pol <-> mode_satisfies_statement pol = true.
+Proof.
+  intros pol. destruct pol; cbn [mode_satisfies_statement]; split; intros H; try reflexivity; try discriminate.
+  - exfalso. exact (C07_statement_q_refuted_as_coded H).
+  - exfalso. exact (C07_statement_q_refuted_missing_temp_repair H).
+  - exact C07_statement_q_nonfinite_temp_repair.
+  - intros f rows _. exact (C07_statement_repaired f rows).
+Qed.
+Print Assumptions C07_mode_verdict.
 
 (* partial: the unchanged code satisfies the row-wise statement under exactly this guard *)
 Theorem C07_both_or_neither_partial : forall (A : Type) (f : Z -> A -> A) rows,
@@ -128,6 +194,14 @@ Example C07_nonvacuous_repaired :
   = [(1, false, false); (2, false, false); (3, true, true); (4, false, false); (5, false, false)]%Z
   /\ NoDup (map (@ts Q) ex_rows).
 Proof. split; [vm_compute; reflexivity | repeat constructor; cbn; intuition discriminate]. Qed.
+Example C07_nonvacuous_nonfinite_temp_repair :
+  map (fun o => (o_ts o, notna (o_obs o), notna (o_pred o))) (predict_rows (fun _ t => t + 1) MaskNonFiniteTemp true ex_rows)
+  = [(1, false, false); (2, false, false); (3, true, true); (4, false, false); (5, true, false)]%Z
+  /\ usage_missing_or_finite (firstn 4 ex_rows) /\ length (dropped_of Q true (firstn 4 ex_rows)) = 3%nat.
+Proof.
+  split; [vm_compute; reflexivity | split; [|vm_compute; reflexivity]].
+  intros r [E|[E|[E|[E|[]]]]]; subst r; reflexivity.
+Qed.
 Example C07_nonvacuous_as_coded :
   map (fun o => (o_ts o, notna (o_obs o), notna (o_pred o))) (predict_rows (fun _ t => t + 1) MaskOff true ex_rows)
   = [(1, true, false); (2, false, false); (3, true, true); (4, true, false); (5, true, false)]%Z.
